@@ -1,6 +1,7 @@
 package main
 
 import (
+	"os"
 	"sort"
 )
 
@@ -17,6 +18,7 @@ type Profile struct {
 	// percentages (swarm: each is switched off entirely in some runs)
 	PReorg, PSnapCrash, PCacheOps, PQuery int
 	PForged                               int
+	HugePermille                          int // per-mille of runs with one block of 65536+ additions (16-bit counters)
 	NetFaults                             bool
 	QueryModes                            []string
 }
@@ -81,11 +83,11 @@ func init() {
 	lightNodes := func(r *Rng) []NodeCfg {
 		return []NodeCfg{{Kind: "light"}, {Kind: "light"}, {Kind: "light", Big: bigOffset(r)}, {Kind: "stump"}, {Kind: "light", Big: bigOffset(r)}}
 	}
-	reg(&Profile{Name: "c07", Property: "C07", Oracles: []string{"roots", "light"},
+	reg(&Profile{Name: "c07", HugePermille: 2, Property: "C07", Oracles: []string{"roots", "light"},
 		Nodes: lightNodes, MaxBlocks: 40, MaxAdds: 40, PReorg: 10, PSnapCrash: 3, NetFaults: true})
-	reg(&Profile{Name: "c08", Property: "C08", Oracles: []string{"roots", "light"},
+	reg(&Profile{Name: "c08", HugePermille: 1, Property: "C08", Oracles: []string{"roots", "light"},
 		Nodes: lightNodes, MaxBlocks: 40, MaxAdds: 40, PReorg: 35, PSnapCrash: 3, NetFaults: true})
-	reg(&Profile{Name: "c11", Property: "C11", Oracles: []string{"roots", "updatedata"},
+	reg(&Profile{Name: "c11", HugePermille: 2, Property: "C11", Oracles: []string{"roots", "updatedata"},
 		Nodes: func(r *Rng) []NodeCfg {
 			return []NodeCfg{{Kind: "stump"}, {Kind: "stump", Big: bigOffset(r)}, {Kind: "stump", Big: bigOffset(r)}}
 		},
@@ -148,6 +150,29 @@ func Generate(p *Profile, seed uint64) *Scenario {
 	sc.Nodes = p.Nodes(sw)
 	nn := len(sc.Nodes)
 
+	if p.HugePermille > 0 && os.Getenv("VERIF_HUGE") == "1" && sw.Intn(1000) < p.HugePermille {
+		// a short history around one block with 65536+ additions
+		picks := func(n int) []int {
+			out := make([]int, n)
+			for i := range out {
+				out[i] = g.Intn(1 << 12)
+			}
+			sort.Sort(sort.Reverse(sort.IntSlice(out)))
+			return out
+		}
+		sc.Steps = append(sc.Steps, Step{Op: "block", Adds: 1 + g.Intn(40), Seed: g.Next()}, Step{Op: "tick", Dt: 3})
+		if g.Bool() {
+			sc.Steps = append(sc.Steps, Step{Op: "block", Dels: picks(1 + g.Intn(12)), Adds: g.Intn(6), Seed: g.Next()}, Step{Op: "tick", Dt: 3})
+		}
+		sc.Steps = append(sc.Steps, Step{Op: "block", Dels: picks(g.Intn(20)), Adds: 65536 + g.Intn(40) - 3*g.Intn(2), Seed: g.Next()}, Step{Op: "tick", Dt: 3})
+		if g.Bool() {
+			sc.Steps = append(sc.Steps, Step{Op: "block", Dels: picks(1 + g.Intn(30)), Adds: g.Intn(10), Seed: g.Next()}, Step{Op: "tick", Dt: 3})
+		}
+		if g.Pct(40) {
+			sc.Steps = append(sc.Steps, Step{Op: "tip", Pick: 1 + g.Intn(2)}, Step{Op: "tick", Dt: 3})
+		}
+		return sc
+	}
 	// swarm configuration of this run
 	maxBlocks := 2 + sw.Intn(p.MaxBlocks-1)
 	if sw.Pct(60) {
